@@ -17,7 +17,7 @@ R-C13-5  (MIR) order-free context construction needs duplicates to be rejected: 
 R-C13-6  (syntax) error paths: each error is given the (source, path) of the tuple it was produced from.
 """
 import re
-from .common import walk, src, strip, AnchorError, must_call_blocks
+from .common import walk, src, strip, AnchorError, must_call_blocks, owner_root
 
 FS_WRITE = re.compile(r"^std::fs::(write|create_dir|create_dir_all|remove_file|remove_dir|remove_dir_all|rename|copy|hard_link|soft_link|set_permissions)$"
                       r"|^std::fs::File::(create|create_new|set_len)$|^std::fs::OpenOptions::(write|append|create|create_new|truncate)$"
@@ -198,7 +198,7 @@ def run(chk, facts):
     n_ins = 0
     seen = {}
     for b in mir.fns.values():
-        owner = b.parent if b.kind == "Closure" else b.path
+        owner = owner_root(mir, syn, b.path)     # closures and single-caller private helpers belong to generics()
         if owner != "check::context::generic::generics":
             continue
         for bb, t in b.calls():
@@ -212,7 +212,7 @@ def run(chk, facts):
                f"generics(): the result of inserting a class into the shared table is inspected ({len(lst)} sites)" if used else
                f"generics() drops the `bool` of inserting a class ({len(lst)} sites): a second class of the same name, e.g. in another file, is silently ignored - "
                "the first one wins, so the verdict depends on the order in which the files are presented", lst[0][1])
-    chk.floor("R-C13-5", n_ins, 2, "class inserts while gathering user definitions")
+    chk.floor("R-C13-5", n_ins, 1, "class inserts while gathering user definitions")
 
     # ---------------- R-C13-6 ----------------
     ws_calls = [n_ for n_ in walk(m2["body"]) if n_.get("k") == "mcall" and n_["m"] == "with_source"]
